@@ -292,6 +292,7 @@ def run(ctx, P):
     from . import r4
     r4.every_question_considered(ctx, P, "C10i")
     r4.age_subtracted_once(ctx, P, "C10j")
+    r4.collected_answers_are_sent(ctx, P, "C10k")   # a suppressed answer does not hold the others back
     clause_e(ctx, P)
     clause_a(ctx, P)
     clause_b(ctx, P)
